@@ -84,7 +84,8 @@ def check_step(ctx: Ctx, env, s0, s1, op, outcome, case):
         t = op["tok"]
         held = dict((x, fr(v["base"])) for x, v in s0["supplies"]).get(t, F(0)) * F(env["status"][t]["liqIdx"])
         paid = wal1.get(t, F(0)) - wal0.get(t, F(0))
-        if paid > held * (1 + SLACK):
+        # `paid` is read off the wallet, whose own 35-digit rounding is relative to the wallet balance
+        if paid > held * (1 + SLACK) + SLACK * (abs(wal0.get(t, F(0))) + abs(wal1.get(t, F(0)))):
             ctx.violate("aave.over-redemption:withdraw", f"{op} paid out {float(paid):.12g} {t} of a supply of {float(held):.12g}", case)
     if outcome == "ok" and k == "repay":
         t = op["tok"]
@@ -94,7 +95,7 @@ def check_step(ctx: Ctx, env, s0, s1, op, outcome, case):
         if not op.get("withColl"):
             paid = wal0.get(t, F(0)) - wal1.get(t, F(0))
             # the code accepts a scaled over-payment below 5e-19 (round(.., 18) >= 0); Asset.sub may also take the last 1e-5 of the balance
-            if paid > (owed + F(5, 10 ** 19)) * idx * (1 + SLACK) + DUST * abs(wal0.get(t, F(0))):
+            if paid > (owed + F(5, 10 ** 19)) * idx * (1 + SLACK) + DUST * abs(wal0.get(t, F(0))) + SLACK * abs(wal0.get(t, F(0))):
                 ctx.violate("aave.over-redemption:repay", f"{op} took {float(paid):.12g} {t} for a debt of {float(owed * idx):.12g}", case)
         if left > owed:
             ctx.violate("aave.debt-grew:repay", f"{op} increased the scaled debt {owed} -> {left}", case)
